@@ -1,0 +1,464 @@
+//! Deterministic scheduler shim for verification builds (`--cfg brotli_verif`, feature `std`).
+//!
+//! `worker_pool.rs` takes `Mutex`, `Condvar`, `spawn` and `JoinHandle` from here instead of
+//! `std` when the guard is on.  While no scenario is installed (the default) the types behave
+//! exactly like the `std` ones.  After `install(chooser)` real threads still run the real pool
+//! code, but only one of them at a time (the baton holder); every `lock()`, `Condvar::wait`,
+//! `JoinHandle::join`, explicit `yield_now()` and thread exit is a yield point at which the
+//! chooser names the thread that runs next (or injects a spurious wake-up).  Each step (resume
+//! to next yield point) appends one token `<tid><events>:<sizes>` to the trace.
+#![cfg(feature = "std")]
+use std::boxed::Box;
+use std::string::String;
+use std::sync::Arc;
+use std::time::Duration;
+use std::vec::Vec;
+
+#[derive(Clone, Copy, PartialEq, Debug)]
+enum St {
+    Runnable,
+    Waiting(usize), // condvar id
+    Woken,
+    Joining(usize), // tid
+    Exited,
+    Finished, // the submitter after its last op
+}
+
+/// what the chooser answers: run a thread, or wake a waiting thread spuriously
+#[derive(Clone, Copy, Debug, PartialEq)]
+pub enum Choice {
+    Run(usize),
+    Wake(usize),
+}
+
+pub type Chooser = Box<dyn FnMut(&[usize], &[usize]) -> Option<Choice> + Send>;
+
+struct Inner {
+    active: bool,
+    current: usize,
+    st: Vec<St>,
+    arrived: Vec<bool>, // has the thread reached its first yield point yet?
+    events: String,
+    sizes: String,
+    trace: Vec<String>,
+    schedule: Vec<String>,
+    chooser: Option<Chooser>,
+    extra: Option<Box<dyn Fn() -> String + Send>>, // harness-side observation appended to sizes (e.g. Arc count)
+    stuck: bool,
+    next_cv: usize,
+    steps: usize,
+}
+
+struct Global {
+    m: std::sync::Mutex<Inner>,
+    cv: std::sync::Condvar,
+}
+
+fn global() -> &'static Global {
+    static G: std::sync::OnceLock<Global> = std::sync::OnceLock::new();
+    G.get_or_init(|| Global {
+        m: std::sync::Mutex::new(Inner {
+            active: false,
+            current: 0,
+            st: Vec::new(),
+            arrived: Vec::new(),
+            events: String::new(),
+            sizes: String::new(),
+            trace: Vec::new(),
+            schedule: Vec::new(),
+            chooser: None,
+            extra: None,
+            stuck: false,
+            next_cv: 0,
+            steps: 0,
+        }),
+        cv: std::sync::Condvar::new(),
+    })
+}
+
+std::thread_local! {
+    static TID: core::cell::Cell<Option<usize>> = core::cell::Cell::new(None);
+}
+fn my_tid() -> Option<usize> {
+    TID.with(|t| t.get())
+}
+
+fn lock_inner() -> std::sync::MutexGuard<'static, Inner> {
+    match global().m.lock() {
+        Ok(g) => g,
+        Err(p) => p.into_inner(),
+    }
+}
+
+/// Start a scenario: the calling thread becomes tid 0 and holds the baton.
+pub fn install(chooser: Chooser, extra: Box<dyn Fn() -> String + Send>) {
+    let mut g = lock_inner();
+    g.active = true;
+    g.current = 0;
+    g.st = std::vec![St::Runnable];
+    g.arrived = std::vec![true];
+    g.events.clear();
+    g.sizes = String::from("0,0,0");
+    g.trace.clear();
+    g.schedule.clear();
+    g.chooser = Some(chooser);
+    g.extra = Some(extra);
+    g.stuck = false;
+    g.steps = 0;
+    TID.with(|t| t.set(Some(0)));
+}
+
+/// End the scenario; returns (schedule tokens, trace tokens, stuck?)
+pub fn uninstall() -> (Vec<String>, Vec<String>, bool) {
+    let mut g = lock_inner();
+    g.active = false;
+    g.chooser = None;
+    g.extra = None;
+    TID.with(|t| t.set(None));
+    let r = (
+        core::mem::take(&mut g.schedule),
+        core::mem::take(&mut g.trace),
+        g.stuck,
+    );
+    global().cv.notify_all();
+    r
+}
+
+pub fn is_active() -> bool {
+    lock_inner().active
+}
+
+/// pool-side observation: an event of the current step (e.g. "p3") and, when the caller holds
+/// the pool lock, the queue sizes "jobs,in_progress,results"
+pub fn event(ev: &str, sizes: Option<(usize, usize, usize)>) {
+    let mut g = lock_inner();
+    if !g.active || my_tid().is_none() {
+        return;
+    }
+    g.events.push_str(ev);
+    if let Some((a, b, c)) = sizes {
+        g.sizes = std::format!("{},{},{}", a, b, c);
+    }
+}
+
+fn runnable(g: &Inner, t: usize) -> bool {
+    match g.st[t] {
+        St::Runnable | St::Woken => true,
+        St::Joining(x) => g.st[x] == St::Exited,
+        _ => false,
+    }
+}
+
+/// close the current step of thread `me` (token) and pick the next thread; returns with the
+/// scheduler state updated.  Must be called with the lock held.
+fn hand_off(g: &mut Inner, me: usize, emit: bool) {
+    if emit {
+        let extra = match g.extra {
+            Some(ref f) => f(),
+            None => String::new(),
+        };
+        let tok = std::format!("{}{}:{}{}", me, g.events, g.sizes, extra);
+        g.trace.push(tok);
+    }
+    g.events.clear();
+    loop {
+        let run: Vec<usize> = (0..g.st.len()).filter(|t| runnable(g, *t)).collect();
+        let wait: Vec<usize> = (0..g.st.len())
+            .filter(|t| matches!(g.st[*t], St::Waiting(_)))
+            .collect();
+        let all_done = g
+            .st
+            .iter()
+            .all(|s| matches!(s, St::Exited | St::Finished));
+        if all_done {
+            g.current = usize::MAX;
+            return;
+        }
+        let choice = match g.chooser {
+            Some(ref mut c) => c(&run, &wait),
+            None => None,
+        };
+        let choice = match choice {
+            Some(c) => c,
+            None => {
+                if let Some(t) = run.first() {
+                    Choice::Run(*t)
+                } else {
+                    // nothing can run without a spurious wake-up: stuck
+                    g.stuck = true;
+                    g.current = usize::MAX;
+                    return;
+                }
+            }
+        };
+        g.steps += 1;
+        match choice {
+            Choice::Wake(t) => {
+                if t < g.st.len() && matches!(g.st[t], St::Waiting(_)) {
+                    g.st[t] = St::Woken;
+                    g.schedule.push(std::format!("w{}", t));
+                    let extra = match g.extra {
+                        Some(ref f) => f(),
+                        None => String::new(),
+                    };
+                    let tok = std::format!("{}~:{}{}", t, g.sizes, extra);
+                    g.trace.push(tok);
+                }
+            }
+            Choice::Run(t) => {
+                if t < g.st.len() && runnable(g, t) {
+                    g.schedule.push(std::format!("{}", t));
+                    g.current = t;
+                    return;
+                }
+            }
+        }
+    }
+}
+
+/// block until this thread holds the baton (polling; robust against lost notifications)
+fn wait_turn(me: usize) {
+    let gl = global();
+    let mut g = lock_inner();
+    loop {
+        if !g.active || g.current == me {
+            return;
+        }
+        if g.stuck {
+            // scenario is dead: park forever (the harness process exits)
+            drop(g);
+            loop {
+                std::thread::sleep(Duration::from_millis(1000));
+            }
+        }
+        g = match gl.cv.wait_timeout(g, Duration::from_micros(200)) {
+            Ok((g, _)) => g,
+            Err(p) => p.into_inner().0,
+        };
+    }
+}
+
+/// explicit yield point (used by the harness at the start of job functions and before ops
+/// that take no lock)
+pub fn yield_now() {
+    let me = match my_tid() {
+        Some(t) => t,
+        None => return,
+    };
+    {
+        let mut g = lock_inner();
+        if !g.active {
+            return;
+        }
+        if !g.arrived[me] {
+            // a freshly spawned thread reaching its first yield point: it never held the baton,
+            // so it only waits for it (it may have been chosen already)
+            g.arrived[me] = true;
+        } else if g.current == me {
+            let first = me == 0 && g.trace.is_empty() && g.events.is_empty() && g.steps == 0;
+            hand_off(&mut g, me, !first);
+            global().cv.notify_all();
+        }
+    }
+    wait_turn(me);
+}
+
+/// the submitter has run its whole program
+pub fn finish_submitter() {
+    let me = match my_tid() {
+        Some(t) => t,
+        None => return,
+    };
+    let gl = global();
+    let mut g = lock_inner();
+    if !g.active {
+        return;
+    }
+    g.st[me] = St::Finished;
+    hand_off(&mut g, me, true);
+    gl.cv.notify_all();
+    // wait until every thread is done or the scenario is stuck
+    loop {
+        let done = g.st.iter().all(|s| matches!(s, St::Exited | St::Finished));
+        if done || g.stuck || !g.active {
+            return;
+        }
+        g = match gl.cv.wait_timeout(g, Duration::from_micros(200)) {
+            Ok((g, _)) => g,
+            Err(p) => p.into_inner().0,
+        };
+    }
+}
+
+// ------------------------------------------------------------------------------------------
+pub struct Mutex<T> {
+    inner: std::sync::Mutex<T>,
+}
+pub type MutexGuard<'a, T> = std::sync::MutexGuard<'a, T>;
+
+impl<T> Mutex<T> {
+    pub fn new(t: T) -> Self {
+        Mutex {
+            inner: std::sync::Mutex::new(t),
+        }
+    }
+    pub fn lock(&self) -> std::sync::LockResult<MutexGuard<'_, T>> {
+        yield_now();
+        self.inner.lock()
+    }
+    /// lock without being a yield point (observation only)
+    pub fn lock_quiet(&self) -> std::sync::LockResult<MutexGuard<'_, T>> {
+        self.inner.lock()
+    }
+}
+
+pub struct Condvar {
+    inner: std::sync::Condvar,
+    id: core::sync::atomic::AtomicUsize,
+}
+impl Condvar {
+    pub fn new() -> Self {
+        Condvar {
+            inner: std::sync::Condvar::new(),
+            id: core::sync::atomic::AtomicUsize::new(0),
+        }
+    }
+    fn my_id(&self) -> usize {
+        use core::sync::atomic::Ordering;
+        let v = self.id.load(Ordering::SeqCst);
+        if v != 0 {
+            return v;
+        }
+        let mut g = lock_inner();
+        g.next_cv += 1;
+        let n = g.next_cv;
+        drop(g);
+        let _ = self.id.compare_exchange(0, n, Ordering::SeqCst, Ordering::SeqCst);
+        self.id.load(Ordering::SeqCst)
+    }
+    pub fn wait<'a, T>(
+        &self,
+        guard: MutexGuard<'a, T>,
+    ) -> std::sync::LockResult<MutexGuard<'a, T>> {
+        let me = my_tid();
+        let active = me.is_some() && lock_inner().active;
+        if !active {
+            return self.inner.wait(guard);
+        }
+        let me = me.unwrap();
+        let id = self.my_id();
+        {
+            let mut g = lock_inner();
+            g.st[me] = St::Waiting(id);
+            g.events.push('w');
+            hand_off(&mut g, me, true);
+            global().cv.notify_all();
+        }
+        // park on the real condition variable (releases the data mutex); poll for the baton
+        let mut guard = guard;
+        loop {
+            let r = self.inner.wait_timeout(guard, Duration::from_micros(200));
+            guard = match r {
+                Ok((g, _)) => g,
+                Err(p) => p.into_inner().0,
+            };
+            let g = lock_inner();
+            if !g.active {
+                break;
+            }
+            if g.current == me && g.st[me] == St::Woken {
+                break;
+            }
+            if g.stuck {
+                drop(g);
+                drop(guard);
+                loop {
+                    std::thread::sleep(Duration::from_millis(1000));
+                }
+            }
+        }
+        {
+            let mut g = lock_inner();
+            if g.active {
+                g.st[me] = St::Runnable;
+            }
+        }
+        Ok(guard)
+    }
+    pub fn notify_all(&self) {
+        let me = my_tid();
+        {
+            let mut g = lock_inner();
+            if g.active && me.is_some() {
+                let id = self.id.load(core::sync::atomic::Ordering::SeqCst);
+                for s in g.st.iter_mut() {
+                    if *s == St::Waiting(id) && id != 0 {
+                        *s = St::Woken;
+                    }
+                }
+                return;
+            }
+        }
+        self.inner.notify_all();
+    }
+}
+
+pub struct JoinHandle<T> {
+    inner: std::thread::JoinHandle<T>,
+    tid: Option<usize>,
+}
+impl<T> JoinHandle<T> {
+    pub fn join(self) -> std::thread::Result<T> {
+        if let (Some(me), Some(t)) = (my_tid(), self.tid) {
+            let need_park = {
+                let mut g = lock_inner();
+                if g.active && g.st[t] != St::Exited {
+                    g.st[me] = St::Joining(t);
+                    hand_off(&mut g, me, true);
+                    global().cv.notify_all();
+                    true
+                } else {
+                    false
+                }
+            };
+            if need_park {
+                wait_turn(me);
+                let mut g = lock_inner();
+                if g.active {
+                    g.st[me] = St::Runnable;
+                    g.events.push('J');
+                }
+            }
+        }
+        self.inner.join()
+    }
+}
+
+pub fn spawn<F: FnOnce() + Send + 'static>(f: F) -> JoinHandle<()> {
+    let tid = {
+        let mut g = lock_inner();
+        if g.active && my_tid().is_some() {
+            g.st.push(St::Runnable);
+            g.arrived.push(false);
+            Some(g.st.len() - 1)
+        } else {
+            None
+        }
+    };
+    let inner = std::thread::spawn(move || {
+        if let Some(t) = tid {
+            TID.with(|c| c.set(Some(t)));
+        }
+        let r = std::panic::catch_unwind(std::panic::AssertUnwindSafe(f));
+        if let Some(t) = tid {
+            let mut g = lock_inner();
+            if g.active {
+                g.st[t] = St::Exited;
+                g.events.push_str(if r.is_ok() { "x" } else { "PANIC" });
+                hand_off(&mut g, t, true);
+                global().cv.notify_all();
+            }
+        }
+    });
+    JoinHandle { inner, tid }
+}
